@@ -114,8 +114,8 @@ func (p *principalInstance) doIntentRequestChecks(i Intent) error {
 		p.targetInfo = targURL
 		p.targetConnected = true
 		logrus.Info("principal: connected to target")
-	} else {
-		p.checkIntent(i, p.targetCert)
+	} else if err := p.checkIntent(i, p.targetCert); err != nil {
+		return WriteIntentDenied(p.delegateConn, err.Error())
 	}
 
 	err := WriteIntentCommunication(p.targetConn, i)
